@@ -35,6 +35,7 @@ type typedKit struct {
 	unpackPK       func(k any, b []byte) bool // false: refused
 	unpackSK       func(k any, b []byte) bool
 	use            func(pk, sk any, r *core.PRNG) []byte
+	pubOf          func(sk any) any // the object sk.Public() hands out
 }
 
 var typedKits []typedKit
@@ -43,6 +44,7 @@ func init() {
 	typedKits = append(typedKits, typedKit{name: "kem/kyber/kyber512", seedLen: kyber512.KeySeedSize,
 		newKeys: func(seed []byte) (any, any) { return kyber512.NewKeyFromSeed(seed) },
 		newPK:   func() any { return new(kyber512.PublicKey) }, newSK: func() any { return new(kyber512.PrivateKey) },
+		pubOf: func(sk any) any { return sk.(*kyber512.PrivateKey).Public().(*kyber512.PublicKey) },
 		packPK: func(k any) []byte {
 			b := make([]byte, kyber512.PublicKeySize)
 			k.(*kyber512.PublicKey).Pack(b)
@@ -76,6 +78,7 @@ func init() {
 	typedKits = append(typedKits, typedKit{name: "kem/kyber/kyber768", seedLen: kyber768t.KeySeedSize,
 		newKeys: func(seed []byte) (any, any) { return kyber768t.NewKeyFromSeed(seed) },
 		newPK:   func() any { return new(kyber768t.PublicKey) }, newSK: func() any { return new(kyber768t.PrivateKey) },
+		pubOf: func(sk any) any { return sk.(*kyber768t.PrivateKey).Public().(*kyber768t.PublicKey) },
 		packPK: func(k any) []byte {
 			b := make([]byte, kyber768t.PublicKeySize)
 			k.(*kyber768t.PublicKey).Pack(b)
@@ -109,6 +112,7 @@ func init() {
 	typedKits = append(typedKits, typedKit{name: "kem/kyber/kyber1024", seedLen: kyber1024.KeySeedSize,
 		newKeys: func(seed []byte) (any, any) { return kyber1024.NewKeyFromSeed(seed) },
 		newPK:   func() any { return new(kyber1024.PublicKey) }, newSK: func() any { return new(kyber1024.PrivateKey) },
+		pubOf: func(sk any) any { return sk.(*kyber1024.PrivateKey).Public().(*kyber1024.PublicKey) },
 		packPK: func(k any) []byte {
 			b := make([]byte, kyber1024.PublicKeySize)
 			k.(*kyber1024.PublicKey).Pack(b)
@@ -142,6 +146,7 @@ func init() {
 	typedKits = append(typedKits, typedKit{name: "kem/mlkem/mlkem512", seedLen: mlkem512.KeySeedSize,
 		newKeys: func(seed []byte) (any, any) { return mlkem512.NewKeyFromSeed(seed) },
 		newPK:   func() any { return new(mlkem512.PublicKey) }, newSK: func() any { return new(mlkem512.PrivateKey) },
+		pubOf: func(sk any) any { return sk.(*mlkem512.PrivateKey).Public().(*mlkem512.PublicKey) },
 		packPK: func(k any) []byte {
 			b := make([]byte, mlkem512.PublicKeySize)
 			k.(*mlkem512.PublicKey).Pack(b)
@@ -173,6 +178,7 @@ func init() {
 	typedKits = append(typedKits, typedKit{name: "kem/mlkem/mlkem768", seedLen: mlkem768t.KeySeedSize,
 		newKeys: func(seed []byte) (any, any) { return mlkem768t.NewKeyFromSeed(seed) },
 		newPK:   func() any { return new(mlkem768t.PublicKey) }, newSK: func() any { return new(mlkem768t.PrivateKey) },
+		pubOf: func(sk any) any { return sk.(*mlkem768t.PrivateKey).Public().(*mlkem768t.PublicKey) },
 		packPK: func(k any) []byte {
 			b := make([]byte, mlkem768t.PublicKeySize)
 			k.(*mlkem768t.PublicKey).Pack(b)
@@ -204,6 +210,7 @@ func init() {
 	typedKits = append(typedKits, typedKit{name: "kem/mlkem/mlkem1024", seedLen: mlkem1024.KeySeedSize,
 		newKeys: func(seed []byte) (any, any) { return mlkem1024.NewKeyFromSeed(seed) },
 		newPK:   func() any { return new(mlkem1024.PublicKey) }, newSK: func() any { return new(mlkem1024.PrivateKey) },
+		pubOf: func(sk any) any { return sk.(*mlkem1024.PrivateKey).Public().(*mlkem1024.PublicKey) },
 		packPK: func(k any) []byte {
 			b := make([]byte, mlkem1024.PublicKeySize)
 			k.(*mlkem1024.PublicKey).Pack(b)
@@ -239,6 +246,7 @@ func init() {
 			return mode2.NewKeyFromSeed(&s)
 		},
 		newPK: func() any { return new(mode2.PublicKey) }, newSK: func() any { return new(mode2.PrivateKey) },
+		pubOf:  func(sk any) any { return sk.(*mode2.PrivateKey).Public().(*mode2.PublicKey) },
 		packPK: func(k any) []byte { var b [mode2.PublicKeySize]byte; k.(*mode2.PublicKey).Pack(&b); return b[:] },
 		packSK: func(k any) []byte { var b [mode2.PrivateKeySize]byte; k.(*mode2.PrivateKey).Pack(&b); return b[:] },
 		// the typed Unpack takes a pointer to the caller's array: the array handed over IS the slice's memory
@@ -274,6 +282,7 @@ func init() {
 			return mode3.NewKeyFromSeed(&s)
 		},
 		newPK: func() any { return new(mode3.PublicKey) }, newSK: func() any { return new(mode3.PrivateKey) },
+		pubOf:  func(sk any) any { return sk.(*mode3.PrivateKey).Public().(*mode3.PublicKey) },
 		packPK: func(k any) []byte { var b [mode3.PublicKeySize]byte; k.(*mode3.PublicKey).Pack(&b); return b[:] },
 		packSK: func(k any) []byte { var b [mode3.PrivateKeySize]byte; k.(*mode3.PrivateKey).Pack(&b); return b[:] },
 		// the typed Unpack takes a pointer to the caller's array: the array handed over IS the slice's memory
@@ -309,6 +318,7 @@ func init() {
 			return mode5.NewKeyFromSeed(&s)
 		},
 		newPK: func() any { return new(mode5.PublicKey) }, newSK: func() any { return new(mode5.PrivateKey) },
+		pubOf:  func(sk any) any { return sk.(*mode5.PrivateKey).Public().(*mode5.PublicKey) },
 		packPK: func(k any) []byte { var b [mode5.PublicKeySize]byte; k.(*mode5.PublicKey).Pack(&b); return b[:] },
 		packSK: func(k any) []byte { var b [mode5.PrivateKeySize]byte; k.(*mode5.PrivateKey).Pack(&b); return b[:] },
 		// the typed Unpack takes a pointer to the caller's array: the array handed over IS the slice's memory
@@ -344,6 +354,7 @@ func init() {
 			return mldsa44.NewKeyFromSeed(&s)
 		},
 		newPK: func() any { return new(mldsa44.PublicKey) }, newSK: func() any { return new(mldsa44.PrivateKey) },
+		pubOf:  func(sk any) any { return sk.(*mldsa44.PrivateKey).Public().(*mldsa44.PublicKey) },
 		packPK: func(k any) []byte { var b [mldsa44.PublicKeySize]byte; k.(*mldsa44.PublicKey).Pack(&b); return b[:] },
 		packSK: func(k any) []byte { var b [mldsa44.PrivateKeySize]byte; k.(*mldsa44.PrivateKey).Pack(&b); return b[:] },
 		// the typed Unpack takes a pointer to the caller's array: the array handed over IS the slice's memory
@@ -379,6 +390,7 @@ func init() {
 			return mldsa65.NewKeyFromSeed(&s)
 		},
 		newPK: func() any { return new(mldsa65.PublicKey) }, newSK: func() any { return new(mldsa65.PrivateKey) },
+		pubOf:  func(sk any) any { return sk.(*mldsa65.PrivateKey).Public().(*mldsa65.PublicKey) },
 		packPK: func(k any) []byte { var b [mldsa65.PublicKeySize]byte; k.(*mldsa65.PublicKey).Pack(&b); return b[:] },
 		packSK: func(k any) []byte { var b [mldsa65.PrivateKeySize]byte; k.(*mldsa65.PrivateKey).Pack(&b); return b[:] },
 		// the typed Unpack takes a pointer to the caller's array: the array handed over IS the slice's memory
@@ -414,6 +426,7 @@ func init() {
 			return mldsa87.NewKeyFromSeed(&s)
 		},
 		newPK: func() any { return new(mldsa87.PublicKey) }, newSK: func() any { return new(mldsa87.PrivateKey) },
+		pubOf:  func(sk any) any { return sk.(*mldsa87.PrivateKey).Public().(*mldsa87.PublicKey) },
 		packPK: func(k any) []byte { var b [mldsa87.PublicKeySize]byte; k.(*mldsa87.PublicKey).Pack(&b); return b[:] },
 		packSK: func(k any) []byte { var b [mldsa87.PrivateKeySize]byte; k.(*mldsa87.PrivateKey).Pack(&b); return b[:] },
 		// the typed Unpack takes a pointer to the caller's array: the array handed over IS the slice's memory
@@ -449,6 +462,7 @@ func init() {
 			return eddil2.NewKeyFromSeed(&s)
 		},
 		newPK: func() any { return new(eddil2.PublicKey) }, newSK: func() any { return new(eddil2.PrivateKey) },
+		pubOf:  func(sk any) any { return sk.(*eddil2.PrivateKey).Public().(*eddil2.PublicKey) },
 		packPK: func(k any) []byte { var b [eddil2.PublicKeySize]byte; k.(*eddil2.PublicKey).Pack(&b); return b[:] },
 		packSK: func(k any) []byte { var b [eddil2.PrivateKeySize]byte; k.(*eddil2.PrivateKey).Pack(&b); return b[:] },
 		// the typed Unpack takes a pointer to the caller's array: the array handed over IS the slice's memory
@@ -484,6 +498,7 @@ func init() {
 			return eddil3.NewKeyFromSeed(&s)
 		},
 		newPK: func() any { return new(eddil3.PublicKey) }, newSK: func() any { return new(eddil3.PrivateKey) },
+		pubOf:  func(sk any) any { return sk.(*eddil3.PrivateKey).Public().(*eddil3.PublicKey) },
 		packPK: func(k any) []byte { var b [eddil3.PublicKeySize]byte; k.(*eddil3.PublicKey).Pack(&b); return b[:] },
 		packSK: func(k any) []byte { var b [eddil3.PrivateKeySize]byte; k.(*eddil3.PrivateKey).Pack(&b); return b[:] },
 		// the typed Unpack takes a pointer to the caller's array: the array handed over IS the slice's memory
@@ -518,6 +533,7 @@ func init() {
 			return pk.(*frodo640shake.PublicKey), sk.(*frodo640shake.PrivateKey)
 		},
 		newPK: func() any { return new(frodo640shake.PublicKey) }, newSK: func() any { return new(frodo640shake.PrivateKey) },
+		pubOf: func(sk any) any { return sk.(*frodo640shake.PrivateKey).Public().(*frodo640shake.PublicKey) },
 		packPK: func(k any) []byte {
 			b := make([]byte, frodo640shake.PublicKeySize)
 			k.(*frodo640shake.PublicKey).Pack(b)
@@ -551,6 +567,7 @@ func init() {
 	typedKits = append(typedKits, typedKit{name: "kem/xwing", seedLen: xwing.SeedSize,
 		newKeys: func(seed []byte) (any, any) { sk, pk := xwing.DeriveKeyPair(seed); return pk, sk },
 		newPK:   func() any { return new(xwing.PublicKey) }, newSK: func() any { return new(xwing.PrivateKey) },
+		pubOf:  func(sk any) any { return sk.(*xwing.PrivateKey).Public().(*xwing.PublicKey) },
 		packPK: func(k any) []byte { b := make([]byte, xwing.PublicKeySize); k.(*xwing.PublicKey).Pack(b); return b },
 		packSK: func(k any) []byte { b := make([]byte, xwing.PrivateKeySize); k.(*xwing.PrivateKey).Pack(b); return b },
 		unpackPK: func(k any, b []byte) bool {
@@ -669,6 +686,30 @@ func typedHistory(run *core.Run, k *typedKit, imm uint64) {
 	}
 	if !siblings("after Unpack into A's private key") {
 		return
+	}
+	// 3b. the object Public() hands out is the caller's: decoding another key (or garbage) into
+	// it leaves the private key as it was
+	if k.pubOf != nil {
+		skC := k.newSK()
+		if !k.unpackSK(skC, append([]byte{}, sB...)) {
+			return
+		}
+		out := k.pubOf(skC)
+		if !bytes.Equal(k.packPK(out), bB) {
+			run.Violate(comp, "public-of-restored-key-differs", "Public() of a private key restored from bytes packs differently from the public key")
+			return
+		}
+		junk := core.NewPRNG(imm ^ 0xbad2).Bytes(len(bB))
+		core.Try(func() { k.unpackPK(out, junk) })
+		k.unpackPK(out, append([]byte{}, bA...))
+		if !bytes.Equal(k.packSK(skC), sB) || !bytes.Equal(k.use(fb, skC, core.NewPRNG(useSeed)), tB) {
+			run.Violate(comp, "modifying-a-returned-value-changes-later-results", "decoding another key into the object returned by Public() changed the private key it came from")
+			return
+		}
+		if again := k.pubOf(skC); !bytes.Equal(k.packPK(again), bB) {
+			run.Violate(comp, "modifying-a-returned-value-changes-later-results", "Public() returns another key after the object it returned earlier was overwritten by its holder")
+			return
+		}
 	}
 	// 4. packing does not hand out internal memory: scribbling over a packed copy changes nothing
 	p1 := k.packPK(pkB)
